@@ -120,8 +120,10 @@ pub fn run(ctx: &Ctx) -> Report {
     let mut rng = Rng::derive(ctx.seed, 0xC02);
     for spec in panels_for(ctx) {
         let syms = syms(spec);
-        let probes: Vec<K> = if ctx.tier_thorough { spec.full.iter().filter(|e| e.after.is_none()).map(|e| e.k).collect() } else { vec![K::UpdateFrame] };
+        let probes: Vec<K> = spec.full.iter().filter(|e| e.after.is_none()).map(|e| e.k).collect();
         let maxlen = if ctx.tier_thorough { 3 } else { 2 };
+        let small = spec.w * spec.h <= 200 * 200;
+        let big = spec.w * spec.h > 300 * 400;
         for probe in &probes {
             for n in 1..=maxlen {
                 if n == 3 && *probe != K::UpdateFrame {
@@ -131,10 +133,19 @@ pub fn run(ctx: &Ctx) -> Report {
                     cases.push(Case { spec, h, probe: *probe });
                 }
             }
+            if !ctx.tier_thorough {
+                // quick tier: longer histories are sampled (seeded), every full-frame entry point as probe
+                let (n3, nlong) = if big { (60, 30) } else if small { (600, 300) } else { (250, 120) };
+                let share = if *probe == K::UpdateFrame { 1 } else { 4 };
+                for _ in 0..n3 / share {
+                    cases.push(Case { spec, h: random_history(spec, &syms, 3, &mut rng), probe: *probe });
+                }
+                for i in 0..nlong / share {
+                    cases.push(Case { spec, h: random_history(spec, &syms, 4 + i % 3, &mut rng), probe: *probe });
+                }
+            }
             if ctx.tier_thorough && *probe == K::UpdateFrame {
                 // length 4: exhaustive on the small panels (<= 128 x 296 / 200 x 200), seeded elsewhere
-                let small = spec.w * spec.h <= 200 * 200;
-                let big = spec.w * spec.h > 300 * 400;
                 if small {
                     for h in histories(spec, &syms, 4) {
                         cases.push(Case { spec, h, probe: *probe });
@@ -144,6 +155,11 @@ pub fn run(ctx: &Ctx) -> Report {
                     for _ in 0..n4 {
                         cases.push(Case { spec, h: random_history(spec, &syms, 4, &mut rng), probe: *probe });
                     }
+                }
+                // long random walks (5..=10 symbols)
+                let nl = if big { 500 } else { 5000 };
+                for i in 0..nl {
+                    cases.push(Case { spec, h: random_history(spec, &syms, 5 + i % 6, &mut rng), probe: *probe });
                 }
             }
         }
